@@ -17,12 +17,14 @@ type Clause struct {
 	Text  string
 	Expr  *Expr
 	Props []string // restricts the clause to these properties (from label prefix "C08.x")
+	Internal bool  // checked in the function itself, not exported to callers (may mention ghosts)
 	File  string
 	Line  int
 }
 
 type LoopSpec struct {
 	Invariants []*Clause
+	Steps      []*Clause // checked at every back edge, not assumed at the head (may use ghosts taken at "loop:K")
 	Decreases  *Clause
 	Unroll     int     // >0: unroll with unwinding assertion
 	Bounded    int     // >0: unroll without unwinding assertion (bounded stand-in)
@@ -88,7 +90,13 @@ type MonitorSpec struct {
 	Type     string // "Writer"
 	Lock     string // "mu"
 	Protects []string
-	Invs     []*Clause
+	Atomic   []string // protected fields that are read with atomic loads outside the lock
+	Chans    []string // protected channel fields whose closed state belongs to the monitor
+	Invs     []*Clause // hold whenever the lock is free
+	Pubs     []*Clause // publication invariant: holds at every instant, also mid critical section
+	Guars    []*Clause // two-state guarantee of every atomic step: old(self.f) vs self.f
+	Relies   []*Clause // assumed about other goroutines only (protocol assumptions, listed in the evidence)
+	Leaf     bool      // no transport-blocking action while held (C04)
 	Pkg      string
 }
 
@@ -107,6 +115,7 @@ type ContractSet struct {
 	ObjInvs  map[string]*ObjInv
 	Files    []string
 	RawScan  []string // assume/trusted/extern lines for the evidence
+	Axioms   []*Clause // assumed facts about package-level variables of dependencies
 }
 
 func NewContractSet() *ContractSet {
@@ -117,7 +126,7 @@ func NewContractSet() *ContractSet {
 var subKeywords = map[string]bool{"mode": true, "props": true, "inline": true, "unroll": true, "requires": true,
 	"ensures": true, "modifies": true, "loop": true, "let": true, "assumes": true, "effect": true,
 	"nopanic": true, "maypanic": true, "pure": true, "trusted": true, "invariant": true, "protects": true,
-	"ghost": true, "site": true, "bounded": true, "reveal": true, "use": true}
+	"ghost": true, "site": true, "bounded": true, "reveal": true, "use": true, "check": true, "atomic": true, "chans": true, "published": true, "guarantee": true, "rely": true, "leaf": true}
 
 var labelRe = regexp.MustCompile(`^\[([^\]]+)\]\s*`)
 
@@ -301,7 +310,7 @@ func (cs *ContractSet) LoadFile(path, pkg string) error {
 			continue
 		}
 		if top && !map[string]bool{"func": true, "extern": true, "spec": true, "lemma": true, "monitor": true,
-			"objinv": true, "uninterp": true, "opaque": true}[w] {
+			"objinv": true, "uninterp": true, "opaque": true, "axiom": true}[w] {
 			if len(merged) > 0 {
 				merged[len(merged)-1].text += " " + l.text
 				continue
@@ -388,6 +397,13 @@ func (cs *ContractSet) LoadFile(path, pkg string) error {
 					Lets: map[string]*Expr{}, File: path, Line: l.line, Sites: map[string][]*Clause{}}
 				cs.Lemmas = append(cs.Lemmas, fc)
 				cur = fc
+			case "axiom":
+				c, err := mkClause(rest, path, l.line)
+				if err != nil {
+					return err
+				}
+				cs.Axioms = append(cs.Axioms, c)
+				cs.RawScan = append(cs.RawScan, "axiom "+rest)
 			case "monitor":
 				// monitor T.mu
 				parts := strings.SplitN(strings.TrimSpace(rest), ".", 2)
@@ -409,12 +425,36 @@ func (cs *ContractSet) LoadFile(path, pkg string) error {
 				for _, f := range strings.Split(rest, ",") {
 					curMon.Protects = append(curMon.Protects, strings.TrimSpace(f))
 				}
-			case "invariant":
+			case "atomic":
+				for _, f := range strings.Split(rest, ",") {
+					curMon.Atomic = append(curMon.Atomic, strings.TrimSpace(f))
+				}
+			case "chans":
+				for _, f := range strings.Split(rest, ",") {
+					curMon.Chans = append(curMon.Chans, strings.TrimSpace(f))
+				}
+			case "leaf":
+				curMon.Leaf = true
+			case "rely":
 				c, err := mkClause(rest, path, l.line)
 				if err != nil {
 					return err
 				}
-				curMon.Invs = append(curMon.Invs, c)
+				curMon.Relies = append(curMon.Relies, c)
+				cs.RawScan = append(cs.RawScan, fmt.Sprintf("rely (%s.%s) %s", curMon.Type, curMon.Lock, rest))
+			case "invariant", "published", "guarantee":
+				c, err := mkClause(rest, path, l.line)
+				if err != nil {
+					return err
+				}
+				switch w {
+				case "invariant":
+					curMon.Invs = append(curMon.Invs, c)
+				case "published":
+					curMon.Pubs = append(curMon.Pubs, c)
+				default:
+					curMon.Guars = append(curMon.Guars, c)
+				}
 			default:
 				return fmt.Errorf("%s:%d: unexpected %q in monitor", path, l.line, w)
 			}
@@ -476,7 +516,7 @@ func (cs *ContractSet) LoadFile(path, pkg string) error {
 			cs.RawScan = append(cs.RawScan, fmt.Sprintf("assumes (%s) %s", cur.Name, rest))
 		case "effect":
 			cur.Effects = append(cur.Effects, strings.Fields(rest)...)
-		case "requires", "ensures":
+		case "requires", "ensures", "check":
 			c, err := mkClause(rest, path, l.line)
 			if err != nil {
 				return err
@@ -484,6 +524,7 @@ func (cs *ContractSet) LoadFile(path, pkg string) error {
 			if w == "requires" {
 				cur.Requires = append(cur.Requires, c)
 			} else {
+				c.Internal = w == "check"
 				cur.Ensures = append(cur.Ensures, c)
 			}
 		case "modifies":
@@ -544,6 +585,12 @@ func (cs *ContractSet) LoadFile(path, pkg string) error {
 					return err
 				}
 				ls.Invariants = append(ls.Invariants, c)
+			case "step":
+				c, err := mkClause(body, path, l.line)
+				if err != nil {
+					return err
+				}
+				ls.Steps = append(ls.Steps, c)
 			case "decreases":
 				c, err := mkClause(body, path, l.line)
 				if err != nil {
